@@ -1183,8 +1183,8 @@ def result_clauses(cls: str, n: int, value, spec: dict) -> list[str]:
             ok = abs(value - spec["want"]) <= TOL
         except Exception:  # noqa: BLE001
             ok = False
-        return [] if ok else [f"gate fidelity {value!r:.40} is not the (|tr(U^dag V)|^2+d)/(d(d+1)) = {spec['want']:.9f} "
-                              f"of the target and circuit it was computed for"]
+        return [] if ok else [(f"gate fidelity {value!r:.40} is not the (|tr(U^dag V)|^2+d)/(d(d+1)) = {spec['want']:.9f} "
+                               f"of the target and circuit it was computed for")]
     choi = np.asarray(value)
     if choi.shape != ref.shape:
         return [f"Choi matrix of shape {choi.shape}, expected {ref.shape}"]
@@ -1195,7 +1195,7 @@ def result_clauses(cls: str, n: int, value, spec: dict) -> list[str]:
     if cls == "li":
         want = ref if lam == 0 else (1 - lam) * ref + lam * np.eye(d * d) / d
         if not np.all(np.abs(choi - want) <= TOL):
-            out.append(f"LI choi differs from choi_from_unitary(V) of the circuit it was computed for"
+            out.append("LI choi differs from choi_from_unitary(V) of the circuit it was computed for"
                        + ("" if lam == 0 else f" mixed with the depolarising channel (noise {lam})")
                        + f" (max {np.abs(choi - want).max():.3f})")
         return out
@@ -1277,7 +1277,7 @@ class Ledger:
                 continue
             try:
                 cur = o["tomo"].choi
-            except Exception:  # noqa: BLE001
+            except Exception:  # noqa: BLE001, S112  (reported by the next recheck)
                 continue
             if cur is raw or _overlap(cur, raw):
                 ctx.count("keep:scribble-shows-in-.choi-of-the-object (process() returns the object's own ndarray)")
@@ -1441,10 +1441,10 @@ def keep_process(ctx: Ctx, led: Ledger, jobs: list, st: dict, cache: dict, info:
     probs += [f"oracle: {x} [right after {after}]" for x in result_clauses(cls, n, raw, spec)]
     probs += retain_call(ctx, led, tomo, cls, n, name, key, jb["calls"], raw, spec)
     o = led.owners.get(key)
-    if o is not None and cls != "gf" and lam == 0 and o["fid"] is not None:
-        if (cls == "li" and abs(o["fid"] - 1) > FID_TOL) or (cls == "mle" and o["fid"] < 0.99):
-            probs.append(f"oracle: {name} reports the fidelity {o['fid']:.6f} against choi_from_unitary(V) "
-                         f"[right after {after}]")
+    if o is not None and cls != "gf" and lam == 0 and o["fid"] is not None and \
+            ((cls == "li" and abs(o["fid"] - 1) > FID_TOL) or (cls == "mle" and o["fid"] < 0.99)):
+        probs.append(f"oracle: {name} reports the fidelity {o['fid']:.6f} against choi_from_unitary(V) "
+                     f"[right after {after}]")
     return probs, after
 
 
